@@ -14,7 +14,7 @@ PROP = {
             "entry points) x up to 24 require strings (every derivable module name, its suffixes, prefixed, slash form, mapped forms, unresolvable); "
             "distinct = FNV(case); non-trivial = >= 3 require strings resolved to the file(s) the reference selects and >= 1 correctly unresolvable",
     "min_nontrivial": {"quick": 2000, "thorough": 100000},
-    "max_secs": {"quick": 60, "thorough": 900},
+    "max_secs": {"quick": 600, "thorough": 1500},
     "require_clauses": ["obs:resolved", "obs:resolved-among-duplicates", "obs:unresolvable-ok", "obs:step-exact", "obs:step-fuzzy", "obs:step-mapped-exact",
                         "obs:determinism-compared", "obs:type-compared", "obs:definition-compared", "obs:history-steps"],
     "assumptions": COMMON_ASSUME + [
